@@ -4,6 +4,7 @@ cd "$(dirname "$0")/.."
 P=$1; N=$2; EXTRA=$3
 src=/tmp/mut/$P/_mutation$N
 dst=seeded/$P-m${DSTN:-$N}
+if [ -f $dst/patch.diff ] && ! cmp -s $src/patch.diff $dst/patch.diff; then echo "REFUSING: $dst already holds a different patch (use DSTN=<n>)"; exit 2; fi
 mkdir -p $dst
 cp $src/patch.diff $src/demo.py $dst/ 2>/dev/null
 cp $src/notes.md $dst/notes.md 2>/dev/null
